@@ -10,6 +10,8 @@ EXTRA_CONFIGS = [
     dict(name='ext4-1k-resize-rsv', fstype='ext4', bs=1024, blocks=8193, features=[], extra=['-g', '1024', '-E', 'resize=200000']),
     dict(name='ext4-1k-metabg-flex', fstype='ext4', bs=1024, blocks=12289, features=['meta_bg', '^resize_inode'], extra=['-g', '512', '-G', '4', '-N', '768']),
     dict(name='ext3-1k-smallgroups', fstype='ext3', bs=1024, blocks=8193, features=[], extra=['-g', '768', '-N', '512']),
+    dict(name='ext4-1k-fewinodes-3groups', fstype='ext4', bs=1024, blocks=24577, features=[], extra=['-N', '240']),      # 80 inodes per group: the population fills whole groups, shrinking renumbers inodes
+    dict(name='ext2-1k-fewinodes-4groups', fstype='ext2', bs=1024, blocks=32769, features=[], extra=['-N', '256']),
     dict(name='ext4-2k-bigalloc', fstype='ext4', bs=2048, blocks=16384, features=['bigalloc'], extra=['-C', '8192']),
 ]
 ALLCFG = fsgen.CONFIGS + EXTRA_CONFIGS
